@@ -41,8 +41,8 @@ def classify(case_line):
 CFG = dict(
     imports=["From Verif.Common Require Import Packet PolicyRef.", "From Verif.C11 Require Import Bpf Model Spec."],
     checker="check_case",
-    n=dict(quick=96, thorough=3000),
-    shard=12,
+    n=dict(quick=64, thorough=800),
+    shard=8,
     deps=["Common"],
     rule="generated polprog.Rules: workload / workload+host-* / host-interface / XDP shapes; 0-3 tiers per section with 1-3 policies "
          "of 0-4 rules, end-of-tier deny/pass/undef; 0-3 profiles; SuppressNormalHostPolicy; rules with protocol by number or name, "
@@ -50,10 +50,14 @@ CFG = dict(
          "IP+port sets, port ranges + named-port sets, ICMP type/code, all negations, explicit/contradicting ip_version, every action; "
          "IPv4 and IPv6 builds; fixed allow/deny indexes or skb->cb[]; program splitting with 3..80 jumps per program; assembler "
          "trampolines; flow logs / policy debug on and off.  Each case: the REAL Builder's instruction words for all sub-programs, 24 probe "
-         "packet states drawn from CIDR edges +-1, set members, port range ends +-1, protocols, ICMP grid, host flags; every probe is "
+         "packet states: one third drawn from CIDR edges +-1, set members, port range ends +-1, protocols, ICMP grid, host flags; two thirds "
+         "aimed at one of the case's rules (its positive criteria satisfied on CIDR / port-range edges, set members) and then, 45% of them, "
+         "pushed over one edge (port +-1, address +-1, other protocol); every probe is "
          "executed on the real instruction stream by the Coq eBPF interpreter (following tail calls) and compared with the IR model and "
          "with PolicyRef.  non-trivial = compiled, >=2 rules and >=1 match criterion; distinct by (options, rules, sets).  Three feature "
-         "streams (10% each) carry profile Log rules, protocol names icmpv6/udplite, profile Pass rules.",
+         "streams (10% each) carry profile Log rules, protocol names icmpv6/udplite, profile Pass rules; two small out-of-domain streams "
+         "(two positive destination selector sets: the builder must panic and the model says so; a tier without policies) are compared "
+         "model-vs-implementation only.",
     trusted=["Coq 8.16.1 kernel + vm_compute",
              "coq/theories/C11/Bpf.v as the meaning of the eBPF instruction subset and of the two helpers (map_lookup_elem on the state "
              "map / on the IP-sets LPM map answered from the member table, tail_call)",
